@@ -152,6 +152,12 @@ namespace vc
                 if (base + size + 64 > w.end)
                     std::abort();
                 std::size_t gap = static_cast<std::size_t>(base - w.cur);
+                // the zone behind the previous block is about to be filled again: count what was written there
+                if (w.taken_before)
+                    for (std::size_t i = 0; i < 64 && i < gap; ++i)
+                        if (static_cast<unsigned char>(w.cur[i]) != World::guard_byte)
+                            ++w.healed_damage;
+                w.taken_before = true;
                 std::memset(w.cur, World::guard_byte, gap);
                 w.cur = base + size;
                 std::memset(w.cur, World::guard_byte, 64);
@@ -337,7 +343,7 @@ namespace vc
     {
         std::size_t guard_damage()
         {
-            std::size_t gd = 0;
+            std::size_t gd = world().healed_damage;
             for (auto& b : world().blocks)
             {
                 if (b.is_static || !b.guarded)
